@@ -576,10 +576,13 @@ def execute(P, pre):
                     A, MA, dA = pool[op["i"]]
                     B, MB, dB = pool[op["j"]]
                     prod = torch.matmul(MA, MB)
-                    if prod.numel() == 0 or float((prod - prod.transpose(-2, -1).conj()).abs().max()) <= \
-                            1e-3 * float(prod.abs().max()):
+                    asym = 0.0 if prod.numel() == 0 else \
+                        float((prod - prod.transpose(-2, -1).conj()).abs().max()) / max(float(prod.abs().max()), 1e-300)
+                    if asym <= 1e-9:
                         op = dict(op, valid=True)      # the product happens to be Hermitian: nothing to reject
                         model, desc = prod, "(%s)@(%s)[herm]" % (dA, dB)
+                    elif asym < 1e-2:
+                        op = dict(op, valid=None)      # near-Hermitian band: no single right answer, not judged
                     res = A.matmul(B, is_hermitian=True)
                 elif k == "badmul":
                     A, MA, dA = pool[op["i"]]
@@ -627,7 +630,9 @@ def execute(P, pre):
                 viol.append({"inv": inv, "op": k if k != "apply" else "apply." + op["prod"], "step": step,
                              "detail": "step %d %s on %s: %s" % (step, k if k != "apply" else op["prod"], desc, detail)})
 
-            if op["valid"]:
+            if op["valid"] is None:
+                pass
+            elif op["valid"]:
                 if err is not None:
                     V("valid_rejected", "raised %s: %s" % (type(err).__name__, str(err)[:300]))
                     if k not in ("apply", "query"):
